@@ -298,8 +298,53 @@ func runC18(c *runCtx, idx int, r *rand.Rand) {
 	} else {
 		x.churnScenario(r, cfg, fail)
 	}
-	// shutdown never crashes the transport (a panic would end this process: the driver reports it)
-	_ = p.Stop()
+	// shutdown never crashes the transport (a panic would end this process: the driver reports it), also while
+	// listeners keep (re)connecting: a client that reconnects the moment its stream ends is the normal case
+	var late []*stream
+	var lmu sync.Mutex
+	stopReconnect := make(chan struct{})
+	var rwg sync.WaitGroup
+	for k := 0; k < 2; k++ {
+		rwg.Add(1)
+		go func(k int) {
+			defer rwg.Done()
+			for i := 0; i < 40; i++ {
+				select {
+				case <-stopReconnect:
+					return
+				default:
+				}
+				s := x.connect("late", fmt.Sprintf("l%d", k))
+				lmu.Lock()
+				late = append(late, s)
+				lmu.Unlock()
+				for t := 0; t < 100 && !s.eof.Load(); t++ {
+					time.Sleep(time.Millisecond)
+				}
+			}
+		}(k)
+	}
+	time.Sleep(5 * time.Millisecond)
+	t0 := time.Now()
+	stopErr := p.Stop()
+	took := time.Since(t0)
+	close(stopReconnect)
+	rwg.Wait()
+	c.rep.Hit("stop-with-reconnecting-listeners-judged")
+	if stopErr != nil {
+		fail("stop:error", "Stop() with listeners reconnecting during the shutdown returned %v after %v (shutdown timeout %v)", stopErr, took, cfg.Timeout)
+	}
+	lmu.Lock()
+	for _, s := range late {
+		for t := 0; t < 300 && s.status == 200 && !s.eof.Load(); t++ {
+			time.Sleep(10 * time.Millisecond)
+		}
+		if s.status == 200 && !s.eof.Load() {
+			fail("stop:listener-not-released", "a listener that connected while the transport was shutting down is still connected 3 s after Stop() returned")
+			break
+		}
+	}
+	lmu.Unlock()
 	time.Sleep(20 * time.Millisecond)
 	c.rep.Events += len(x.msgs)
 	c.rep.HitN("messages", len(x.msgs))
@@ -464,6 +509,36 @@ func (x *c18) churnScenario(r *rand.Rand, cfg *poll.Config, fail func(string, st
 	time.Sleep(30 * time.Millisecond)
 	x.judge(confirmed, fail)
 	_ = p2
+	// ---- phase 3: every listener hangs up, some with a message on its way to them. A listener that is gone must not
+	// stay registered: the transport's own connection count returns to zero (messages keep being sent, so a dead
+	// connection is written to and noticed either way)
+	x.smu.Lock()
+	open := append([]*stream{}, x.streams...)
+	x.smu.Unlock()
+	for _, s := range open {
+		if s.eof.Load() || s.byClient.Load() {
+			continue
+		}
+		for k := 0; k < 3; k++ {
+			x.send("invoke", s.group, s.id, -1)
+		}
+		x.disconnect(s)
+	}
+	settled := false
+	for t := 0; t < 160 && !settled; t++ {
+		if x.gauge() == 0 {
+			settled = true
+			break
+		}
+		for _, g := range groups {
+			x.send("invoke", g, "", -1)
+		}
+		time.Sleep(50 * time.Millisecond)
+	}
+	x.c.rep.Hit("hang-up-phase-judged")
+	if !settled {
+		fail("listener-stays-registered-after-hang-up", "8 s after every listener had hung up (messages were sent all the time) the transport still counts %v registered connection(s)", x.gauge())
+	}
 }
 
 func (x *c18) judge(confirmed map[string]*stream, fail func(string, string, ...any)) {
